@@ -432,7 +432,7 @@ func c19R5(c *Ctx) {
 					} else {
 						// Add/Set on a fresh result container
 						for _, cal := range a.Callees(cc) {
-							if s := a.sum[cal]; s != nil && s.MutRecv && cal.Pkg == a.pkg {
+							if s := a.sum[cal]; s != nil && s.MutRecv && a.inPkg(cal) {
 								args := callArgs(cc)
 								if len(args) > 0 && a.get(args[0])&oROOTS == oFRESH {
 									what, vals = "value stored into a result container", args[1:]
